@@ -39,9 +39,10 @@ def ovGlobs (gs : List (Nat × List Nat)) : List GiGlob :=
     | .glob g => some g
     | _ => none
 
-/-- `hiargs.rs::globs`: every `-g` glob is added first, every `--iglob` glob after them -/
+/-- `hiargs.rs::globs`: the globs are added in command-line order, whichever flag gave them (`glob_order`); before
+the repair every `-g` glob was added first and every `--iglob` glob after them -/
 def ovModel (root : Bytes) (gs : List (Nat × List Nat)) : Gi :=
-  { root := root, globs := ovGlobs (gs.filter (·.1 != 2)) ++ ovGlobs (gs.filter (·.1 == 2)) }
+  { root := root, globs := ovGlobs gs }
 
 /-- the documentation: "the glob given later in the command line takes precedence" -/
 def ovSpec (root : Bytes) (gs : List (Nat × List Nat)) : Gi := { root := root, globs := ovGlobs gs }
